@@ -8,6 +8,7 @@ import (
 
 	remoteexecution "github.com/bazelbuild/remote-apis/build/bazel/remote/execution/v2"
 	"github.com/buildbarn/bb-remote-execution/pkg/builder"
+	"github.com/buildbarn/bb-remote-execution/pkg/filesystem/pool"
 	"github.com/buildbarn/bb-remote-execution/pkg/proto/remoteworker"
 	runner_pb "github.com/buildbarn/bb-remote-execution/pkg/proto/runner"
 	"github.com/buildbarn/bb-storage/pkg/clock"
@@ -88,6 +89,11 @@ func (c *fakeClock) Now() time.Time { return time.Unix(1000, 0) }
 
 func (c *fakeClock) NewContextWithTimeout(parent context.Context, timeout time.Duration) (context.Context, context.CancelFunc) {
 	t := &timeoutCtx{Context: parent, timeout: timeout, done: make(chan struct{})}
+	if err := parent.Err(); err != nil {
+		// Like context.WithTimeout: a context derived from a parent that is
+		// already done is done from the start (synchronously).
+		t.finish(err)
+	}
 	t.stop = context.AfterFunc(parent, func() { t.finish(parent.Err()) })
 	c.mu.Lock()
 	c.ctxs = append(c.ctxs, t)
@@ -144,6 +150,7 @@ type fakeRunner struct {
 	clk     *fakeClock
 	outcome runnerOutcome
 	calls   int
+	linger  *lingeringWriter // non-nil: one output file is still open for writing when Run returns
 }
 
 var _ runner_pb.RunnerClient = (*fakeRunner)(nil)
@@ -189,6 +196,9 @@ func (r *fakeRunner) Run(ctx context.Context, req *runner_pb.RunRequest, opts ..
 		must(r.b.put(put{loc: underRoot(p.loc), thing: p.thing}))
 		applyPut(r.model, p)
 	}
+	if r.linger != nil {
+		r.linger.open(r)
+	}
 	switch r.outcome {
 	case roExit0:
 		return &runner_pb.RunResponse{ExitCode: 0}, nil
@@ -223,7 +233,7 @@ func (r *fakeRunner) Run(ctx context.Context, req *runner_pb.RunRequest, opts ..
 }
 
 // runExecutor: one input, one runner outcome, through Execute().
-func runExecutor(fail failFn, in *input, virtualBD bool, outcome runnerOutcome) {
+func runExecutor(fail failFn, in *input, virtualBD bool, outcome runnerOutcome, linger bool) {
 	escapes := false
 	var locs [][]string
 	for _, p := range in.paths {
@@ -245,7 +255,11 @@ func runExecutor(fail failFn, in *input, virtualBD bool, outcome runnerOutcome) 
 	failed := false
 	ffail := func(fp, format string, args ...any) {
 		failed = true
-		fail(b.label()+"/"+fp, "%s\n  input (real localBuildExecutor.Execute, %s build directory, runner outcome %s): %s", fmt.Sprintf(format, args...), b.label(), outcome, in)
+		how := ""
+		if linger {
+			how = ", LINGERING WRITER: the first declared output file holds \"" + lingerHead + "\" and is still open for writing when Run returns; \"" + lingerTail + "\" is appended and the file closed after UploadingOutputs, the upload delay never expires"
+		}
+		fail(b.label()+"/"+fp, "%s\n  input (real localBuildExecutor.Execute, %s build directory, runner outcome %s%s): %s", fmt.Sprintf(format, args...), b.label(), outcome, how, in)
 	}
 
 	store := func(m proto.Message) *remoteexecution.Digest {
@@ -274,8 +288,21 @@ func runExecutor(fail failFn, in *input, virtualBD bool, outcome runnerOutcome) 
 	runner := &fakeRunner{fail: ffail, in: in, b: b, model: model, locs: locs, clk: clk, outcome: outcome}
 	executor := builder.NewLocalBuildExecutor(w.cas, &oneBuildDirectory{bd: b.dir()}, runner, clk, time.Minute, nil, 1<<20, map[string]string{"PATH": "/bin"}, in.force)
 	updates := make(chan *remoteworker.CurrentState_Executing, 16)
-	response := executor.Execute(bg, memPool{}, nil, sha256Function,
+	var filePool pool.FilePool = memPool{}
+	var lw *lingeringWriter
+	if linger {
+		lw = newLingeringWriter(updates)
+		runner.linger = lw
+		filePool = lw
+	}
+	response := executor.Execute(bg, filePool, nil, sha256Function,
 		&remoteworker.DesiredState_Executing{ActionDigest: actionDigest, Action: action}, updates)
+	if lw != nil {
+		lw.executeReturned()
+		if failed {
+			return
+		}
+	}
 	if failed {
 		return
 	}
@@ -355,12 +382,26 @@ func finalExecutor(fail failFn, in *input) int {
 			for o := roExit0; o < numRunnerOutcomes; o++ {
 				v := *in
 				v.format, v.force, v.decoys = vr.format, vr.force, vr.decoys
-				runExecutor(f, &v, virtualBD, o)
+				runExecutor(f, &v, virtualBD, o, false)
 				n++
 				if failed {
 					return n
 				}
 			}
+		}
+	}
+	// Lingering writer (virtual build directory only: the naive one cannot
+	// know about open descriptors): one declared output file is still open
+	// for writing when Run returns and gets its last bytes only after the
+	// upload phase started; the worker's writable-file upload delay (one
+	// minute on the fake clock) never expires.
+	for _, o := range []runnerOutcome{roExit0, roExit1} {
+		v := *in
+		v.format = 0
+		runExecutor(f, &v, true, o, true)
+		n++
+		if failed {
+			return n
 		}
 	}
 	return n
